@@ -19,6 +19,8 @@ CHECKS = {
          'explicit-state search of the real LALR pushdown automaton against a reference automaton + exhaustive table comparison'),
  'C08': ('exploration', '4 C08', 'Every productive grammar of the bounded families (single-character terminals, with/without %ignore) x 6 parser/lexer pairs x every rejected input (incl. unlexable characters): exception class, position (first token/character after the longest viable prefix, computed by an independent prefix-viability fix-point; reference LALR automaton for conflict grammars), $END/UnexpectedEOF conventions and the continuation sets in the stated directions.',
          'bounded exhaustive enumeration of rejected (grammar, engine, input) triples against a prefix-viability reference'),
+ 'C07': ('exploration', '4 C07', 'Every 2..4-subset of a 16-entry terminal menu x priorities x naming schemes x str/bytes x every input up to the bound is lexed by the real basic lexer and compared token by token with a reference lexer written from the documented order + keyword exception; 130-terminal sets natively and through a shim re enforcing the 100-group limit (chunking path); contextual lexer compared with basic (same tree) and with the reference tiling restricted by the reference LALR automaton.',
+         'bounded exhaustive enumeration of (terminal set, input) against a reference lexer'),
 }
 NOT_YET = {}
 def main():
